@@ -181,9 +181,45 @@ def translate(repo: Path) -> dict:
     cl_tree = T.module_ast(repo / "dulwich" / "client.py")
     max_in_vain = T.const_value(cl_tree, "MAX_IN_VAIN")
 
+    # client request head: the block writing `shallow <sha>` lines is guarded by "deepening OR walker has shallow"
+    head = T.find_def(cl_tree, "_handle_upload_pack_head")
+    loops = [n for n in ast.walk(head) if isinstance(n, ast.For) and _src(n.iter) == "walker_shallow"
+             and "COMMAND_SHALLOW" in _src(n)]
+    if len(loops) != 1:
+        raise T.TranslateError(f"_handle_upload_pack_head: {len(loops)} loops writing the shallow lines")
+    if "walker_shallow=getattr(graph_walker,'shallow',None)" not in _src(head):
+        raise T.TranslateError("_handle_upload_pack_head: walker_shallow is no longer graph_walker.shallow")
+    guards = _enclosing_ifs(head, loops[0])
+    inner_ok = [t for t in guards if t in ("walker_shallowisnotNone", "walker_shallow")]
+    outer = [t for t in guards if t not in ("walker_shallowisnotNone", "walker_shallow")]
+    if len(inner_ok) != 1 or len(outer) != 1:
+        raise T.TranslateError(f"_handle_upload_pack_head: shallow-line loop guarded by {guards}")
+    guard_node = [n for n in ast.walk(head) if isinstance(n, ast.If) and _src(n.test) == outer[0]][0].test
+    disj = [_src(v) for v in guard_node.values] if isinstance(guard_node, ast.BoolOp) and isinstance(guard_node.op, ast.Or) \
+        else [_src(guard_node)]
+    if "depthnotin(0,None)" not in disj:
+        raise T.TranslateError(f"_handle_upload_pack_head: guard of the shallow block is `{outer[0]}`")
+    head_announces = "walker_shallow" in disj
+
+    # server shallow answer: unshallow = not_shallow & client_shallow, for every depth
+    hs = T.find_def(sv_tree, "_ProtocolGraphWalker._handle_shallow_request")
+    assigns = [n for n in ast.walk(hs) if isinstance(n, ast.Assign) and any(_src(t) in ("unshallow", "self.unshallow") for t in n.targets)]
+    walks = [n for n in ast.walk(hs) if isinstance(n, ast.Assign) and "find_shallow(" in _src(n.value)]
+    if not assigns or not walks:
+        raise T.TranslateError("_handle_shallow_request: assignment of unshallow / call of find_shallow not found")
+    unshallow_from_walk = (len(assigns) == 1 and assigns[0] in hs.body and _src(assigns[0].value) == "not_shallow&self.client_shallow"
+                           and len(walks) == 1 and walks[0] in hs.body
+                           and _src(walks[0]) == "shallow,not_shallow=find_shallow(self.store,wants,depth)")
+    hsrc = _src(hs)
+    for frag in ("self.shallow.update(shallow-not_shallow)", "new_shallow=self.shallow-self.client_shallow",
+                 "self.update_shallow(new_shallow,unshallow)"):
+        if frag not in hsrc:
+            raise T.TranslateError(f"_handle_shallow_request: `{frag}` not found")
+
     src = T.lean_header("dulwich/objects.py: S_IFGITLINK, S_ISGITLINK; dulwich/object_store.py: MissingObjectFinder, "
                         "_collect_filetree_revs, _collect_ancestors, _split_commits_and_tags, find_common_revisions; "
-                        "dulwich/server.py: determine_wants; dulwich/client.py: MAX_IN_VAIN") + f"""
+                        "dulwich/server.py: determine_wants, _handle_shallow_request; dulwich/client.py: MAX_IN_VAIN, "
+                        "_handle_upload_pack_head") + f"""
 namespace Dulwich.Gen
 /-- `S_IFGITLINK` -/
 def sIfGitlink : Nat := {gitlink}
@@ -207,6 +243,12 @@ def haveCheckedAgainstStore : Bool := {_b(have_checked)}
 def wantCheckedAgainstAdvertised : Bool := {_b(want_checked)}
 /-- `MAX_IN_VAIN` (client gives up after this many unacknowledged haves) -/
 def maxInVain : Nat := {max_in_vain}
+/-- `_handle_upload_pack_head`: the guard of the block writing the `shallow <sha>` lines has the disjunct
+`walker_shallow` (the boundary is announced whenever the receiver is shallow, not only when deepening) -/
+def headAnnouncesWhenShallow : Bool := {_b(head_announces)}
+/-- `_handle_shallow_request`: `unshallow` is the unconditional `not_shallow & self.client_shallow`, with
+`not_shallow` from the one `find_shallow(self.store, wants, depth)` walk (every depth, infinite included) -/
+def unshallowFromWalk : Bool := {_b(unshallow_from_walk)}
 end Dulwich.Gen
 """
     return {"ObjGraph": src}
@@ -759,6 +801,134 @@ def _stream_nego(ctx):
 
 
 # ------------------------------------------------------------------------------------------------
+# streams req.* / shallowans.*: shallow boundaries on the wire, model vs the real request writer / answerer
+
+class _ReqWalker:
+    def __init__(self, shallow):
+        if shallow is not None:
+            self.shallow = set(shallow)
+
+    def __next__(self):
+        return None
+
+    next = __next__
+
+    def ack(self, sha):
+        pass
+
+
+def real_request(sha, wants, shallow, depth, since, exclude, version, has_attr=True):
+    import dulwich.client as C
+    proto = _NegoProto([])
+    caps = [b"fetch=shallow"] if version == 2 else [b"shallow", b"multi_ack_detailed", b"side-band-64k", b"ofs-delta"]
+    walker = _ReqWalker([sha[x] for x in shallow] if has_attr else None)
+    try:
+        C._handle_upload_pack_head(proto, caps, walker, [sha[w] for w in wants], None, depth, version,
+                                   shallow_since=("2001-01-01" if since else None),
+                                   shallow_exclude=(["refs/heads/x"] if exclude else None))
+    except Exception as e:      # noqa: BLE001
+        return f"exc {type(e).__name__}"
+    rev = {v: k for k, v in sha.items()}
+    toks = []
+    for ln in proto.out:
+        if ln is None:
+            toks.append("F")
+            continue
+        t = ln.rstrip(b"\n").split(b" ")
+        toks.append({b"want": lambda: f"W{rev[t[1]]}", b"shallow": lambda: f"S{rev[t[1]]}", b"deepen": lambda: f"D{int(t[1])}",
+                     b"deepen-since": lambda: "DS", b"deepen-not": lambda: "DN", b"done": lambda: "X"}.get(t[0], lambda: "?")())
+    return " ".join(_sort_shallow_tokens(toks))
+
+
+def _sort_shallow_tokens(toks):
+    """The shallow lines come out of a Python set: canonical order inside their run."""
+    idx = [i for i, t in enumerate(toks) if t.startswith("S")]
+    vals = sorted((toks[i] for i in idx), key=lambda t: int(t[1:]))
+    out = list(toks)
+    for i, v in zip(idx, vals):
+        out[i] = v
+    return out
+
+
+def real_shallow_answer(store, sha, rev, wants, client_shallow, depth):
+    from dulwich.server import _ProtocolGraphWalker
+    pk = [b"shallow " + sha[x] + b"\n" for x in client_shallow] + [b"deepen %d\n" % depth, None]
+    proto = _NegoProto(pk)
+    walker = _ProtocolGraphWalker(_NegoHandler(proto, False), store, lambda ref: None, lambda: {})
+    try:
+        walker._handle_shallow_request([sha[w] for w in wants])
+    except KeyError:
+        return "err key"
+    except AssertionError:
+        return "err type"
+    except Exception as e:      # noqa: BLE001
+        return f"exc {type(e).__name__}"
+    new = {rev[ln.split()[1]] for ln in proto.out if ln and ln.startswith(b"shallow ")}
+    un = {rev[ln.split()[1]] for ln in proto.out if ln and ln.startswith(b"unshallow ")}
+    return f"ok new={show_ids(new)} un={show_ids(un)} boundary={show_ids(rev[x] for x in walker.shallow)}"
+
+
+def _stream_shallow_wire(ctx):
+    from dulwich.object_store import MemoryObjectStore
+    rng = ctx.rng
+    # --- requests
+    cases = []
+    for _ in range(ctx.budget(400, mult=5)):
+        shallow = rng.sample(range(10, 30), rng.choice([0, 0, 1, 2, 4]))
+        wants = rng.sample(range(0, 9), rng.choice([1, 1, 2]))
+        depth = rng.choice([None, None, None, 0, 1, 3, DEPTH_INF])
+        cases.append((wants, shallow, depth, rng.random() < 0.15, rng.random() < 0.15, rng.choice([0, 0, 1, 2]), rng.random() < 0.9))
+    sha = {i: (b"%040x" % (i + 1)) for i in range(40)}
+    lines = [f"c05.request {ids_arg('W', w)[:2]}{','.join(map(str, w))} S:{','.join(map(str, sh)) or '-'} "
+             f"D:{'-' if d is None else d} V:{2 if v == 2 else 0} E:{int(si)}{int(ex)}" for w, sh, d, si, ex, v, _ in cases]
+    outs = ctx.driver.batch(lines)
+    for (w, sh, d, si, ex, v, has_attr), mout in zip(cases, outs):
+        real = real_request(sha, w, sh if has_attr else [], d, si, ex, v, has_attr)
+        mout = " ".join(_sort_shallow_tokens(mout.split(" "))) if has_attr else None
+        case = {"wants": w, "shallow": sh, "depth": d, "since": si, "exclude": ex, "version": v, "walker_has_shallow_attr": has_attr}
+        ctx.count("req", (tuple(w), tuple(sh), d, si, ex, v, has_attr), True,
+                  f"v{v}:{'plain' if d in (None, 0) and not si and not ex else 'deepen'}:shallow{min(len(sh), 2) if has_attr else 'attr-none'}")
+        if has_attr and real != mout:
+            ctx.disagree("req", case, mout, real)
+        # the property's words on the real request: every boundary commit is announced, whatever the depth
+        announced = {int(t[1:]) for t in real.split(" ") if t.startswith("S")}
+        if has_attr and announced != set(sh) and not real.startswith("exc"):
+            ctx.oracle_fail("req", case, f"the request of a receiver shallow at {sorted(sh)} announces {sorted(announced)} "
+                                         f"(depth argument {d!r})", "request-omits-shallow-boundary")
+    # --- answers
+    cases = []
+    for _ in range(ctx.budget(400, mult=6)):
+        g = gen_graph(rng, rng.choice([8, 12, 20, 30]))
+        commits = g.ids("commit")
+        wants = sorted(set(rng.sample(commits * 3 + g.ids("tag"), rng.choice([1, 1, 2]))))
+        client = sorted(set(rng.sample(commits, min(len(commits), rng.choice([0, 1, 2, 3])))))
+        depth = rng.choice([1, 1, 2, 3, 5, 50, DEPTH_INF, DEPTH_INF])
+        cases.append((g, wants, client, depth))
+    outs = ctx.driver.batch([" ".join(["c05.shallowans"] + g.tokens() + [ids_arg("W", w), ids_arg("S", c), f"D:{d}"])
+                             for g, w, c, d in cases])
+    for (g, wants, client, depth), mout in zip(cases, outs):
+        objs, sha = materialise(g)
+        rev = {v: k for k, v in sha.items()}
+        store = MemoryObjectStore()
+        for o in objs.values():
+            store.add_object(o)
+        real = real_shallow_answer(store, sha, rev, wants, client, depth)
+        case = {"graph": g.to_json(), "wants": wants, "client_shallow": client, "depth": depth}
+        ctx.count("shallowans", (tuple(g.tokens()), tuple(wants), tuple(client), depth), real.startswith("ok"),
+                  f"{'inf' if depth >= DEPTH_INF else 'finite'}:client{len(client)}:{real[:3]}")
+        if real != mout:
+            ctx.disagree("shallowans", case, mout, real)
+        if real.startswith("ok"):
+            un = real.split(" un=")[1].split(" ")[0]
+            un = set() if un == "-" else {int(x) for x in un.split(",")}
+            reach = {c for c in g.closure([g.peel(w) for w in wants]) if c in g.objs and g.objs[c][0] == "commit"}
+            bad = sorted(x for x in un if x not in reach or x not in client)
+            if bad:
+                ctx.oracle_fail("shallowans", case, f"`unshallow` for {bad}: not reachable from the wants {wants} "
+                                                    f"(or not announced by the client)", "unshallow-unjustified")
+
+
+# ------------------------------------------------------------------------------------------------
 # end-to-end transfers on the real code
 
 import contextlib
@@ -889,6 +1059,11 @@ class Servers:
         self.http = {}
         self.sent_log = []          # list of lists of hex shas, one per pack written by a dulwich server
         self._orig = None
+        self.req_log = []           # per dulwich-client upload-pack request: the pkt-lines of its head (want/shallow/deepen/have/done)
+        self.shallow_log = []       # per dulwich-server shallow answer: (wants, client_shallow, new_shallow, unshallow)
+        self._orig_head = None
+        self._orig_update_shallow = None
+        self.daemon = None
         import logging
         self.log = _LogTail()
         for name in ("dulwich.server", "dulwich.web"):
@@ -909,6 +1084,61 @@ class Servers:
             log.append([oid for oid, _ in object_ids])
             return orig(write, container, object_ids, *a, **kw)
         S.write_pack_from_container = tee
+        # the head of every upload-pack request a dulwich client writes (all transports go through this function)
+        import dulwich.client as C
+        self._orig_head = C._handle_upload_pack_head
+        req_log, orig_head = self.req_log, self._orig_head
+
+        def head(proto, *a, **kw):
+            lines = []
+            orig_write = proto.write_pkt_line
+
+            def write_pkt_line(line):
+                lines.append(line)
+                return orig_write(line)
+            proto.write_pkt_line = write_pkt_line
+            try:
+                return orig_head(proto, *a, **kw)
+            finally:
+                req_log.append(lines)
+                with contextlib.suppress(Exception):
+                    del proto.write_pkt_line
+        C._handle_upload_pack_head = head
+        # every shallow/unshallow answer a dulwich server gives
+        self._orig_update_shallow = S._ProtocolGraphWalker.update_shallow
+        sh_log, orig_us = self.shallow_log, self._orig_update_shallow
+
+        def update_shallow(walker, new_shallow, unshallow):
+            sh_log.append((list(walker._wants), set(walker.client_shallow), set(new_shallow), set(unshallow),
+                           set(walker.shallow)))
+            return orig_us(walker, new_shallow, unshallow)
+        S._ProtocolGraphWalker.update_shallow = update_shallow
+
+    def daemon_port(self):
+        """`git daemon` (C git as a git:// server, upload-pack and receive-pack) on a free localhost port."""
+        if self.daemon is None:
+            import socket
+            import time
+            sk = socket.socket()
+            sk.bind(("127.0.0.1", 0))
+            port = sk.getsockname()[1]
+            sk.close()
+            p = subprocess.Popen(["git", "daemon", "--base-path=/", "--export-all", "--reuseaddr", "--listen=127.0.0.1",
+                                  f"--port={port}", "--enable=receive-pack", "--informative-errors"],
+                                 env=core.clean_env(), stdout=subprocess.DEVNULL, stderr=subprocess.DEVNULL)
+            for _ in range(200):
+                try:
+                    socket.create_connection(("127.0.0.1", port), timeout=0.2).close()
+                    break
+                except OSError:
+                    if p.poll() is not None:
+                        raise core.InfraError("git daemon exited at start-up")
+                    time.sleep(0.02)
+            else:
+                p.kill()
+                raise core.InfraError("git daemon did not start")
+            self.daemon = (p, port)
+        return self.daemon[1]
 
     def _handlers(self, drop):
         from dulwich.server import ReceivePackHandler, UploadPackHandler
@@ -957,9 +1187,25 @@ class Servers:
         if self._orig is not None:
             S.write_pack_from_container = self._orig
             self._orig = None
+        if self._orig_head is not None:
+            import dulwich.client as C
+            C._handle_upload_pack_head = self._orig_head
+            self._orig_head = None
+        if self._orig_update_shallow is not None:
+            S._ProtocolGraphWalker.update_shallow = self._orig_update_shallow
+            self._orig_update_shallow = None
+        if self.daemon is not None:
+            p, _ = self.daemon
+            with contextlib.suppress(Exception):
+                p.terminate()
+                p.wait(timeout=5)
+            with contextlib.suppress(Exception):
+                p.kill()
+            self.daemon = None
 
 
-DUL_TRANSPORTS = ["local", "tcp", "http", "cgit-sub"]          # dulwich is the client
+DUL_TRANSPORTS = ["local", "tcp", "http", "cgit-sub", "cgit-daemon"]   # dulwich is the client
+CGIT_SERVER = ("cgit-sub", "cgit-daemon")                        # ... and C git the server (subprocess / git daemon)
 GIT_TRANSPORTS = ["git-tcp", "git-http"]                        # C git is the client, dulwich the server
 ACK_MODES = ["detailed", "multi", "single"]
 
@@ -974,6 +1220,8 @@ def _dul_client(tr, var, servers):
         c = TCPGitClient("localhost", port=servers.tcp_port(drop), thin_packs=True, **kw)
     elif tr == "http":
         c = HttpGitClient(f"http://localhost:{servers.http_port(drop)}/", thin_packs=True, **kw)
+    elif tr == "cgit-daemon":
+        c = TCPGitClient("127.0.0.1", port=servers.daemon_port(), thin_packs=var.get("thin", True), **kw)
     else:
         c = SubprocessGitClient(thin_packs=var.get("thin", True), **kw)
     caps = getattr(c, "_fetch_capabilities", None)
@@ -983,7 +1231,7 @@ def _dul_client(tr, var, servers):
             caps.discard(b"multi_ack_detailed")
         if ack == "single":
             caps.discard(b"multi_ack")
-        if tr == "cgit-sub":
+        if tr in CGIT_SERVER:
             for cap in var.get("client_drop", ()):
                 caps.discard(cap)
     return c
@@ -1041,6 +1289,8 @@ def _proto_kw(tr, var):
     """`protocol_version=` argument of the dulwich client call (None = not passed)."""
     if tr == "cgit-sub" and var.get("proto") == 2:
         return {"protocol_version": 2}
+    if tr == "cgit-daemon":
+        return {"protocol_version": 2 if var.get("proto") == 2 else 0}     # (not passing it means v2 for git://)
     if var.get("proto_arg") is not None and tr != "local":
         return {"protocol_version": var["proto_arg"]}
     return {}
@@ -1054,6 +1304,8 @@ def do_fetch(world, servers, tr, var, src, dst, want_refs: dict, depth=None, fet
     from dulwich.repo import Repo
     out = {"ok": False, "err": None, "wire": None, "deltas": 0}
     servers.sent_log.clear()
+    servers.req_log.clear()
+    servers.shallow_log.clear()
     servers.log.records.clear()
     want_shas = [world.sha[i] for i in want_refs.values()] if raw_wants is None else list(raw_wants)
     if tr in GIT_TRANSPORTS:
@@ -1147,6 +1399,8 @@ def do_clone(world, servers, tr, var, src, depth=None, ref_prefix=None):
     """Real clone of `src` into a fresh directory; returns (result dict, path)."""
     out = {"ok": False, "err": None, "wire": None, "deltas": 0}
     servers.sent_log.clear()
+    servers.req_log.clear()
+    servers.shallow_log.clear()
     servers.log.records.clear()
     dst = world.new_path("clone")
     if tr in GIT_TRANSPORTS:
@@ -1186,6 +1440,8 @@ def do_push(world, servers, tr, var, src, dst, push_refs: dict):
     from dulwich.repo import Repo
     out = {"ok": False, "err": None, "wire": None, "deltas": 0, "status": {}}
     servers.sent_log.clear()
+    servers.req_log.clear()
+    servers.shallow_log.clear()
     servers.log.records.clear()
     if tr in GIT_TRANSPORTS:
         args = ["-c", "gc.auto=0", "-c", f"protocol.version={var.get('proto', 0)}", "-C", src, "push", "-q"]
@@ -1296,11 +1552,11 @@ def gen_variant(rng, tr, op):
         if rng.random() < 0.15:
             drop.add(b"include-tag")
         var["server_drop"] = sorted(drop)
-    if tr in ("tcp", "cgit-sub") and op in ("fetch", "fetchall") and rng.random() < 0.15:
+    if tr in ("tcp", "cgit-sub", "cgit-daemon") and op in ("fetch", "fetchall") and rng.random() < 0.15:
         var["slow_client"] = True
     if tr in ("tcp", "http"):
         var["proto_arg"] = rng.choice([None, None, 0, 1, 2])     # the dulwich servers answer v0 whatever is asked
-    if tr == "cgit-sub":
+    if tr in CGIT_SERVER:
         var["proto"] = rng.choice([0, 0, 2])
         var["thin"] = rng.random() < 0.75
         cd = [c for c in (b"ofs-delta", b"side-band-64k") if rng.random() < 0.25]
@@ -1338,7 +1594,7 @@ def min_depths(g: Graph, tips):
 
 def check_receiver(ctx, stream, world, case, path, before, shallow_before, transferred, allowed, res, depth=None,
                    fsck=False, push=False, sender_shallow=False, fetch_all=False, depth_tips=None, proto2=False,
-                   refs_before=None):
+                   refs_before=None, kept_haves=False):
     """The property's own words after a successful transfer into the repository at `path`:
       * it holds every object reachable from the transferred refs and from all its refs (through tag chains,
         gitlinks excluded), cut only at its recorded shallow commits; a depth-limited fetch may cut no earlier
@@ -1379,6 +1635,8 @@ def check_receiver(ctx, stream, world, case, path, before, shallow_before, trans
                 tips = {t for t in set(transferred) | set(changed.values()) if t in before}
                 if tips and missing <= g.closure(tips, shallow=shallow_after):
                     miss_cls = "fetchall-tip-present-closure-missing"
+            if kept_haves and depth and not push and shallow_before:
+                miss_cls = "deepen-keeps-haves-past-client-boundary"
             if proto2 and shallow_before and not depth and not push and after == before:
                 # nothing at all arrived although the fetch returned normally
                 miss_cls = "fetch-v2-shallow-receiver-nothing-received"
@@ -1462,6 +1720,16 @@ EXPECTED_FAILURES = {
     "client-push-shallow-advertisement":
         "dulwich client pushing to a shallow C git repository: receive-pack advertises `shallow <sha>` lines, which "
         "read_pkt_refs_v1 takes for a ref line (AssertionError: Invalid object name b'shallow')",
+    "clone-prefix-excludes-head":
+        "clone(ref_prefix=...) over protocol v2 when the prefix leaves out HEAD: the server-side filtered ls-refs carries no "
+        "HEAD symref and _set_default_branch raises ValueError; the half-made clone is removed",
+    "server-refuses-ref-to-missing-object":
+        "dulwich receive-pack (since bcb1268) refuses to point a ref at an object it does not have: a push from / into a "
+        "shallow repository that would leave the ref without its object is answered `ng ... missing necessary objects`",
+    "cgit-detects-incomplete-deepen":
+        "C git fetching with a depth from a dulwich server that kept the haves of a shallow client (see finding "
+        "F-C05-deepen-keeps-haves-past-client-boundary): the pack lacks history below the client's boundary, C git's "
+        "connectivity check refuses it (`remote did not send all necessary objects`)",
     "server-http-depth-multi-round":
         "C git depth fetch from the dulwich smart-HTTP server when the negotiation needs several stateless rounds "
         "(more than 16 haves): C git aborts with `expected shallow list` on the final response; nothing is installed",
@@ -1492,21 +1760,28 @@ def expected_failure(tr, var, op, err, receiver_shallow=False):
         return "server-shallow-client-without-deepen"
     if op["op"] == "fetchall" and op.get("depth") and err.startswith("AttributeError") and "has no attribute 'parents'" in err:
         return "determine-wants-depth-noncommit"
-    if op["op"] == "push" and tr == "cgit-sub" and (op.get("sender_shallow") or receiver_shallow) and \
+    if op["op"] == "push" and tr in CGIT_SERVER and (op.get("sender_shallow") or receiver_shallow) and \
             ("missing necessary objects" in err or "shallow update not allowed" in err):
         return "cgit-refuses-shallow-push"
+    if op["op"] == "clone" and op.get("ref_prefix") and "neither origin_head nor branch are provided" in err:
+        return "clone-prefix-excludes-head"
+    if op["op"] == "push" and tr in ("tcp", "http") and (op.get("sender_shallow") or receiver_shallow) and \
+            "missing necessary objects" in err:
+        return "server-refuses-ref-to-missing-object"
+    if tr in ("git-tcp", "git-http") and op.get("kept_haves") and "remote did not send all necessary objects" in err:
+        return "cgit-detects-incomplete-deepen"
     if tr == "git-http" and op.get("depth") and "expected shallow list" in err:
         return "server-http-depth-multi-round"
     if op["op"] == "push" and tr in ("git-tcp", "git-http") and receiver_shallow and "UnresolvedDeltas" in err:
         return "server-push-shallow-thin-base"
-    if tr in ("tcp", "cgit-sub") and var.get("ack") == "single" and err.startswith("IndexError"):
+    if tr in ("tcp", "cgit-sub", "cgit-daemon") and var.get("ack") == "single" and err.startswith("IndexError"):
         return "client-single-ack-parse"
-    if tr == "cgit-sub" and var.get("ack") == "single" and ("Invalid sideband channel 65" in err or
+    if tr in CGIT_SERVER and var.get("ack") == "single" and ("Invalid sideband channel 65" in err or
                                                             ("Invalid pack header" in err and "ACK" in err)):
         return "client-single-ack-parse"
-    if op["op"] == "push" and tr == "cgit-sub" and receiver_shallow and "Invalid object name b'shallow'" in err:
+    if op["op"] == "push" and tr in CGIT_SERVER and receiver_shallow and "Invalid object name b'shallow'" in err:
         return "client-push-shallow-advertisement"
-    if tr in ("tcp", "cgit-sub") and op.get("depth") and err.startswith("AssertionError"):
+    if tr in ("tcp", "cgit-sub", "cgit-daemon") and op.get("depth") and err.startswith("AssertionError"):
         return "client-depth-early-shallow"
     return None
 
@@ -1576,6 +1851,53 @@ def tag_follow_ids(g, srefs, base):
     return {i for i in g.closure(t) if i in g.objs}
 
 
+def check_wire_shallow(ctx, stream, world, case, servers, tr, shallow_before):
+    """What the recording hooks saw during the last operation, judged in the property's terms:
+      * a dulwich client that is shallow announces its whole boundary (`shallow <sha>` per entry of its shallow
+        file) in every upload-pack request, deepening or not — otherwise the sender takes the receiver's haves for
+        complete histories and omits what lies below the boundary;
+      * every `unshallow X` a dulwich server sends is justified: X is one of the client's shallow commits and is
+        reachable from this fetch's wants (so its ancestry is in the pack or already at the client)."""
+    g = world.g
+    if tr in DUL_TRANSPORTS and tr != "local":
+        expect = {world.sha[i] for i in shallow_before}
+        for lines in servers.req_log:
+            if not any(ln and ln.startswith(b"want ") for ln in lines):
+                continue
+            sent = {ln.split()[1] for ln in lines if ln and ln.startswith(b"shallow ")}
+            if sent != expect:
+                ctx.oracle_fail(stream, case, f"upload-pack request of a receiver with {len(expect)} shallow commit(s) announces "
+                                              f"{len(sent)} of them (missing: {sorted(world.rev.get(x, x) for x in expect - sent)[:4]}, "
+                                              f"spurious: {sorted(world.rev.get(x, x) for x in sent - expect)[:4]})",
+                                "request-omits-shallow-boundary")
+            ctx.count(stream + ".request", (tr, len(expect), tuple(sorted(sent))), bool(expect),
+                      f"{tr}:shallow{min(len(expect), 3)}")
+    for wants, client_shallow, new_shallow, unshallow, _boundary in servers.shallow_log:
+        w = [world.rev[x] for x in wants if x in world.rev]
+        reach = set()
+        todo = [g.peel(x) for x in w]
+        while todo:
+            c = todo.pop()
+            if c in reach or c not in g.objs or g.objs[c][0] != "commit":
+                continue
+            reach.add(c)
+            todo.extend(g.objs[c][2])
+        bad = [world.rev.get(x, x) for x in unshallow if x not in client_shallow or world.rev.get(x) not in reach]
+        ctx.count(stream + ".shallow-answer", (tuple(sorted(w)), tuple(sorted(unshallow))), bool(unshallow),
+                  f"unshallow{min(len(unshallow), 3)}:client{min(len(client_shallow), 3)}")
+        if bad:
+            ctx.oracle_fail(stream, case, f"the server tells the client to unshallow {bad[:4]}, which the wants do not reach "
+                                          f"(or which the client did not announce): its ancestry is not part of this transfer",
+                            "unshallow-unjustified")
+
+
+def server_kept_haves_of_shallow_client(servers):
+    """A dulwich server answered a deepen request of a client that announced shallow commits with neither a new
+    boundary nor an unshallow: BaseRepo.find_missing_objects then keeps the client's haves (it discards them only when
+    the walker has a boundary or something is unshallowed) and walks their ancestry through the client's boundary."""
+    return any(cs and not un and not boundary for _w, cs, _ns, un, boundary in servers.shallow_log)
+
+
 def refs_in_prefix(srefs, prefixes):
     """The sender refs a `ref_prefix` selects (refs.filter_ref_prefix: plain string prefixes)."""
     if not prefixes:
@@ -1631,9 +1953,15 @@ def run_scenario(ctx, servers, sc, ops, stream="e2e"):
             refs_before = repo_refs(dst)
             res = do_fetch(world, servers, tr, var, src, dst, want_refs, depth=op.get("depth"), fetch_all=(kind == "fetchall"),
                            ref_prefix=prefix)
+            check_wire_shallow(ctx, stream, world, case, servers, tr, shallow)
+            kept_haves = server_kept_haves_of_shallow_client(servers)
             wants = set(want_refs.values())
             wclos = {i for i in g.closure(wants) if i in g.objs}
             allowed = set(wclos)
+            if (op.get("depth") or 0) >= DEPTH_INF:
+                # an infinite deepen asks for the receiver's history to be completed: C git unshallows every
+                # boundary the client announced and sends what lies below it
+                allowed |= {i for i in g.closure(shallow) if i in g.objs}
             if prefix and tr == "local":
                 # LocalGitClient does not implement the ref_prefix hint: everything advertised may travel
                 allowed = {i for i in g.closure(sc["srefs"].values()) if i in g.objs}
@@ -1651,13 +1979,13 @@ def run_scenario(ctx, servers, sc, ops, stream="e2e"):
             ctx.count(stream, (tuple(g.tokens()), tuple(sorted(sc["srefs"].items())), tuple(sorted(sc["rrefs"].items())),
                                tag, var_key(var), tuple(sorted(op.get("refs", ())))), res["ok"], tag + (":ok" if res["ok"] else ":fail"))
             if not res["ok"]:
-                _failed(ctx, stream, case, tr, var, op, res, "transfer succeeds", servers, shallow)
+                _failed(ctx, stream, case, tr, var, dict(op, kept_haves=kept_haves), res, "transfer succeeds", servers, shallow)
                 recv_ids, shallow = repo_state(world, dst)    # a failed transfer may leave objects / shallow info behind
                 continue
             out = check_receiver_safe(ctx, stream, world, case, dst, recv_ids, shallow, wants, allowed, res,
                                  depth=op.get("depth"), fsck=do_fsck, fetch_all=(kind == "fetchall"),
-                                 depth_tips=depth_tips, proto2=(tr == "cgit-sub" and var.get("proto") == 2),
-                                 refs_before=refs_before)
+                                 depth_tips=depth_tips, proto2=(tr in CGIT_SERVER and var.get("proto") == 2),
+                                 refs_before=refs_before, kept_haves=kept_haves)
             recv_ids, shallow = out["after"], out["shallow"]
             if res.get("deltas"):
                 ctx.count(stream + ".thin-or-delta", (tag, len(out["new"])), True, tr)
@@ -1763,7 +2091,7 @@ def gen_ops(rng, sc, transports):
         if kind == "badwant":
             adv = sc["g"].closure(sc["srefs"].values())
             cand = [i for i in sc["sender_ids"] if i not in adv and sc["g"].objs[i][0] in ("commit", "tag")]
-            if not cand or tr in GIT_TRANSPORTS or tr == "cgit-sub":
+            if not cand or tr in GIT_TRANSPORTS or tr in CGIT_SERVER:
                 kind = "fetch"
         op = {"op": kind, "tr": tr, "var": gen_variant(rng, tr, kind)}
         if kind == "badwant":
@@ -1858,8 +2186,122 @@ def gen_fork_ops(rng, sc, d1, d2, thorough=False):
     return ops
 
 
+DEPTH_INF = 0x7FFFFFFF
+
+
+def _mk_commit(g, parents, share_from=None, rng=None):
+    """A commit with its own blob and subtree; optionally sharing some entries with another commit's tree."""
+    b = g.add(("blob",))
+    sub = g.add(("tree", [(M_FILE, b)]))
+    ents = [(M_FILE, b), (M_DIR, sub)]
+    if share_from is not None:
+        ft = g.objs[g.objs[share_from][1]][1]
+        ents += rng.sample(ft, rng.randint(1, len(ft)))
+    t = g.add(("tree", ents))
+    return g.add(("commit", t, list(parents)))
+
+
+def gen_bypass_scenario(rng):
+    """Scenario family "merge that bypasses the receiver's shallow boundary": trunk c0 <- ... <- T; the receiver takes a
+    depth-d copy of T (boundary b); upstream a side branch forked from an ancestor a of b (below the boundary) has
+    been merged into a descendant of T, and a second branch has its tip below the boundary.  An ORDINARY fetch (no
+    depth) of the new tips must bring everything below a: the path new tip -> side -> a -> ... never meets b, so only
+    a sender that knows the receiver's boundary (the `shallow` lines) sends it.  (b, a) range over every boundary
+    position and every ancestor of the boundary commit."""
+    g = Graph()
+    n = rng.choice([3, 4, 5, 6, 7])
+    trunk = []
+    for _ in range(n):
+        trunk.append(_mk_commit(g, trunk[-1:], trunk[-1] if trunk and rng.random() < 0.5 else None, rng))
+    d = rng.randint(1, min(3, n - 1))
+    ib = n - d                                    # boundary commit trunk[ib]; its ancestors are trunk[:ib]
+    ia = rng.randrange(0, ib)
+    side = trunk[ia]
+    for _ in range(rng.choice([1, 1, 2])):
+        side = _mk_commit(g, [side], trunk[ia], rng)
+    top = _mk_commit(g, rng.sample([trunk[-1], side], 2), trunk[-1], rng)       # the merge, above the boundary
+    for _ in range(rng.choice([0, 0, 1])):
+        top = _mk_commit(g, [top], None, rng)
+    # second branch: tip below the boundary (an old trunk commit itself, or a commit grown on one)
+    ia2 = rng.randrange(0, ib)
+    low = trunk[ia2] if rng.random() < 0.4 else _mk_commit(g, [trunk[ia2]], trunk[ia2], rng)
+    srefs = {b"refs/heads/old": trunk[-1], b"refs/heads/b0": top, b"refs/heads/b1": low}
+    sender_ids = {i for i in g.closure(srefs.values()) if i in g.objs}
+    return ({"g": g, "srefs": srefs, "sender_ids": sender_ids, "rrefs": {}, "recv_ids": set(), "state": "bypass-merge",
+             "repack": rng.random() < 0.4}, d)
+
+
+def gen_bypass_ops(rng, sc, d, thorough=False):
+    tr1 = rng.choice(["local", "http", "cgit-sub", "cgit-daemon", "tcp"])
+    # the ordinary fetch: C git as the sender (subprocess and git daemon, v0 and v2), sometimes the other senders
+    tr2 = rng.choice(["cgit-sub"] * 3 + ["cgit-daemon"] * 3 + ["local"] + (["http", "tcp"] if thorough or rng.random() < 0.3 else []))
+    v1, v2 = gen_variant(rng, tr1, "fetch"), gen_variant(rng, tr2, "fetch")
+    for v in (v1, v2):
+        v.pop("slow_client", None)
+    if tr2 in CGIT_SERVER:
+        v2["proto"] = rng.choice([0, 0, 0, 2])
+    refs2 = rng.choice([[b"refs/heads/b0"], [b"refs/heads/b1"], [b"refs/heads/b0", b"refs/heads/b1"]])
+    ops = [{"op": "fetch", "tr": tr1, "var": v1, "refs": [b"refs/heads/old"], "depth": d},
+           {"op": rng.choice(["fetch", "fetch", "fetchall"]), "tr": tr2, "var": v2, "refs": refs2}]
+    if ops[1]["op"] == "fetchall":
+        ops[1].pop("refs")
+    return ops
+
+
+def gen_unshallow_scenario(rng):
+    """Scenario family "infinite deepen with several boundaries": trunk with `main` at its tip and one or two feature
+    branches forked low; the client holds depth-limited copies of several branches (>= 2 shallow commits) and then asks
+    for `main` only with an infinite depth (--unshallow with an explicit refspec / after a branch vanished upstream).
+    Only boundaries the wants reach may be unshallowed."""
+    g = Graph()
+    n = rng.choice([4, 5, 6, 7])
+    trunk = []
+    for _ in range(n):
+        trunk.append(_mk_commit(g, trunk[-1:], trunk[-1] if trunk and rng.random() < 0.5 else None, rng))
+    srefs = {b"refs/heads/b0": trunk[-1]}
+    feats = []
+    for k in range(rng.choice([1, 1, 2])):
+        j = rng.randrange(0, n - 1)
+        tip = trunk[j]
+        for _ in range(rng.choice([2, 2, 3])):
+            tip = _mk_commit(g, [tip], trunk[j], rng)
+        if rng.random() < 0.3:
+            tip = _mk_commit(g, [tip, trunk[rng.randrange(0, n)]], None, rng)      # feature merged trunk in
+        srefs[b"refs/heads/b%d" % (k + 1)] = tip
+        feats.append(b"refs/heads/b%d" % (k + 1))
+    sender_ids = {i for i in g.closure(srefs.values()) if i in g.objs}
+    return {"g": g, "srefs": srefs, "sender_ids": sender_ids, "rrefs": {}, "recv_ids": set(), "state": "multi-boundary",
+            "repack": rng.random() < 0.3}, feats
+
+
+def gen_unshallow_ops(rng, sc, feats, thorough=False):
+    def mk(tr, refs, depth):
+        v = gen_variant(rng, tr, "fetch")
+        v.pop("slow_client", None)
+        return {"op": "fetch", "tr": tr, "var": v, "refs": refs, "depth": depth}
+    first = ["local", "http", "http", "tcp", "git-http", "cgit-sub"]
+    ops = []
+    have_main = rng.random() < 0.75
+    pre = [([f], rng.choice([1, 1, 2])) for f in feats]
+    if have_main:
+        pre.append(([b"refs/heads/b0"], rng.choice([1, 2, 2])))
+    rng.shuffle(pre)
+    for refs, d in pre:
+        ops.append(mk(rng.choice(first), refs, d))
+    # the infinite deepen of main only, answered by the dulwich servers (dulwich client and C git client)
+    tr = rng.choice(["http"] * 3 + ["tcp"] * 2 + ["git-http", "git-tcp"] + (["local", "cgit-sub", "cgit-daemon"] if thorough else []))
+    ops.append(mk(tr, [b"refs/heads/b0"], rng.choice([DEPTH_INF, DEPTH_INF, DEPTH_INF, 50])))
+    return ops
+
+
 def _stream_e2e(ctx, servers):
     rng = ctx.rng
+    for _ in range(ctx.budget(30, mult=8)):
+        sc, d = gen_bypass_scenario(rng)
+        run_scenario(ctx, servers, sc, gen_bypass_ops(rng, sc, d, ctx.thorough), stream="e2e")
+    for _ in range(ctx.budget(25, mult=8)):
+        sc, feats = gen_unshallow_scenario(rng)
+        run_scenario(ctx, servers, sc, gen_unshallow_ops(rng, sc, feats, ctx.thorough), stream="e2e")
     for _ in range(ctx.budget(25, mult=8)):
         sc, d1, d2 = gen_fork_scenario(rng)
         run_scenario(ctx, servers, sc, gen_fork_ops(rng, sc, d1, d2, ctx.thorough), stream="e2e")
@@ -1867,7 +2309,7 @@ def _stream_e2e(ctx, servers):
     if ctx.thorough:
         transports = DUL_TRANSPORTS + GIT_TRANSPORTS
     else:
-        transports = ["local"] * 4 + ["tcp"] * 3 + ["http"] * 3 + ["cgit-sub"] * 2 + GIT_TRANSPORTS
+        transports = ["local"] * 4 + ["tcp"] * 3 + ["http"] * 3 + ["cgit-sub"] * 2 + ["cgit-daemon"] + GIT_TRANSPORTS
     for _ in range(n):
         sc = gen_scenario(rng)
         run_scenario(ctx, servers, sc, gen_ops(rng, sc, transports))
@@ -1897,6 +2339,7 @@ def run(ctx: core.Ctx):
     _run_corpus(ctx)
     _stream_mof(ctx)
     _stream_nego(ctx)
+    _stream_shallow_wire(ctx)
     servers = Servers()
     servers.start_capture()
     try:
